@@ -564,6 +564,16 @@ def main(argv):
         ck.count("simulator_seeded_rerun", 1, key=json.dumps(doc, sort_keys=True, default=str), sample={k: doc[k] for k in ("class", "gates", "shots", "n")})
         if r and not any(f[0] == "oracle:simulator" for f in found):
             found.append(("oracle:simulator", r, doc))
+    # informational probe: dict keys identify 0.0 and -0.0, the numerical integrand 'sin(theta/a)' does not
+    try:
+        from quantum_gates._gates.integrator import Integrator
+        I1 = Integrator(P[1]); I1.integrate(NAMES[6], 0.0, 1.0)
+        warm, coldv = I1.integrate(NAMES[6], -0.0, 1.0), Integrator(P[1]).integrate(NAMES[6], -0.0, 1.0)
+        if float(warm).hex() != float(coldv).hex():
+            ck.notes.append("informational (rounding level, not a violation): after integrate('sin(theta/a)', 0.0, 1) the request theta=-0.0 returns %s, "
+                            "a cold call returns %s; equal as numbers, the dict key identifies the two zeros" % (float(warm).hex(), float(coldv).hex()))
+    except Exception as e:  # noqa
+        ck.notes.append("signed-zero probe raised %s" % type(e).__name__)
     ck.oblige("oracle: cached == cold bit for bit; gates cold == after adversarial history (bytes + generator state); seeded sequences; "
               "sequential simulator reruns", not found)
     ck.exhaustive = False
